@@ -1217,6 +1217,25 @@ func (p *pinner) Update(ctx context.Context, from, to cid.Cid, unpin bool) error
 		return err
 	}
 
+	// The lock was released while fetching: another call may have unpinned or
+	// re-pinned `from`, or pinned `to`, in the meantime. Check again, so that
+	// `to` does not end up with two recursive pins and the name is taken from
+	// the current pin of `from`.
+	fromValues, err = p.cidRIndex.Search(ctx, from.KeyString())
+	if err != nil {
+		return err
+	}
+	if len(fromValues) != 1 {
+		return errors.New("'from' cid was not recursively pinned already")
+	}
+	toFound, err = p.cidRIndex.HasAny(ctx, to.KeyString())
+	if err != nil {
+		return err
+	}
+	if toFound {
+		return errors.New("'to' cid was already recursively pinned")
+	}
+
 	// Get pin information so that we can keep the name.
 	pin, err := p.loadPin(ctx, fromValues[0])
 	if err != nil {
